@@ -1446,7 +1446,7 @@ Example ex_deposits :
     [RBool true; RDep (Some (None, None)); RUnit;
      RDep (Some (Some 120, Some 120))%Z; RDep (Some (None, None)); RUnit;
      RDeps [DV2 50000]; RDeps [DV2 45000];
-     RDep (Some (None, None)); RDep (Some (Some 100, None))%Z;
-     RDep (Some (Some 45000, Some 0))%Z; RDeps [DV1 [1] 50000 50000 112 40 0];
+     RDep (Some (None, None)); RDep (Some (Some 100, Some 60))%Z;
+     RDep (Some (Some 39000, Some 0))%Z; RDeps [DV1 [1] 50000 50000 112 40 0];
      RUnit; RDeps [DV2 50000]; RIllegal].
 Proof. vm_compute. reflexivity. Qed.
